@@ -3,3 +3,5 @@ import SPProofs.Card.Sem
 import SPProofs.Card.Lemmas
 import SPProofs.Properties.C12
 import SPProofs.Properties.C10
+import SPProofs.Logic.Lemmas
+import SPProofs.Properties.C11
